@@ -263,6 +263,11 @@ def rule_empty(report, prog):
                      'the response of `%s` is indexed (%s) without a test for an empty frame: an empty response raises IndexError '
                      'instead of Type4TagCommandError' % (norm(x.ast)[:60], ', '.join(sorted(set(norm(b) for b in bad)))[:120]))
     report.floor('C12-R5', n, 3)
+    # every constant index into a received block is covered by a proven length (the buffer dataflow of nfcsa/buf.py)
+    from .. import buf
+    from ..buf import FROM, names_for
+    for v in names_for(f, FROM('self.clf.exchange')):
+        buf.check(report, prog, f, v, 'C12-R5', 'ISO-DEP block')
 
 
 def run(report, prog, tier):
@@ -275,6 +280,29 @@ def run(report, prog, tier):
     rule_once(report, prog)
     report.trusted += ['ISO/IEC 14443-4 block formats (PCB values), FSCI table', 'clf.exchange raises only CommunicationError subclasses or IOError (C13)']
     report.assumptions += ['the card model (at-most-once execution) is out of reach of a static rule']
+
+
+from .. import triage   # noqa: E402
+
+def _isodep_loop_runs(f):
+    """IsoDepInitiator.exchange binds `data` in a loop over range(0, len(command), self.miu): it runs at least once for a non-empty command."""
+    return any(isinstance(l, ast.For) and norm(l.iter) == 'range(0, len(command), self.miu)' for l in walk_no_nested(f.node))
+
+
+def _apdu_has_header(f):
+    """send_apdu starts the command with the four header bytes and only appends to it."""
+    st = [s for s in walk_no_nested(f.node) if isinstance(s, ast.Assign) and norm(s.targets[0]) == 'apdu']
+    return bool(st) and norm(st[0].value) == 'bytearray([cla, ins, p1, p2])' and \
+        all(norm(s.value).startswith('self.transceive(') for s in st[1:])
+
+
+ISODEP_EMPTY_REASON = ('the read follows the block loop `for offset in range(0, len(command), self.miu)`, which binds and length-checks data on every '
+                       'iteration; it is skipped only for an empty command, and send_apdu always sends the four header bytes (an empty command is an '
+                       'argument error of an application calling transceive() directly, not something a tag can cause)')
+ISODEP_EMPTY_ANCHORS = [('nfc.tag.tt4.IsoDepInitiator.exchange', _isodep_loop_runs), ('nfc.tag.tt4.Type4Tag.send_apdu', _apdu_has_header)]
+
+
+triage.add('C12', 'C12-R5', key(ISO + '.exchange', 'data is long enough for', 'data[0] in `while bool(data[0] & 16)`'), ISODEP_EMPTY_REASON, ISODEP_EMPTY_ANCHORS)
 
 
 T4 = 'nfc.tag.tt4'
@@ -350,6 +378,21 @@ MUTANTS = [
             raise Type4TagCommandError(nfc.tag.PROTOCOL_ERROR)""", """        if not apdu or len(apdu) < 2:
             raise RuntimeError("short apdu")""", 'C12-R3'),
     ('response-prepended', T4, "            response = response + data[1:]", "            response = data[1:] + response", 'C12-R2'),
+    ('wtx-timeout-unmapped', T4, """                except nfc.clf.TimeoutError:
+                    raise Type4TagCommandError(nfc.tag.TIMEOUT_ERROR)
+                except nfc.clf.TransmissionError:
+                    raise Type4TagCommandError(nfc.tag.RECEIVE_ERROR)
+                except nfc.clf.ProtocolError:
+                    raise Type4TagCommandError(nfc.tag.PROTOCOL_ERROR)
+                if len(data) == 0:""", """                except nfc.clf.TransmissionError:
+                    raise Type4TagCommandError(nfc.tag.RECEIVE_ERROR)
+                except nfc.clf.ProtocolError:
+                    raise Type4TagCommandError(nfc.tag.PROTOCOL_ERROR)
+                if len(data) == 0:""", 'C12-R3'),
+    ('wtx-wtxm-length-untested', T4, """                if len(data) < 2:
+                    log.error("ISO-DEP protocol error: missing WTXM")
+                    raise Type4TagCommandError(nfc.tag.PROTOCOL_ERROR)
+""", "", 'C12-R5'),
     ('apdu-reissued-after-receive-error', T4, """        apdu = self.transceive(apdu)
 
         if not apdu or len(apdu) < 2:""", """        try:
@@ -361,19 +404,21 @@ MUTANTS = [
         apdu = rsp
 
         if not apdu or len(apdu) < 2:""", 'C12-R6'),
-    ('block-number-check-before-wtx', T4, """            while data[0] & 0b11111110 == 0b11110010:  # WTX
+    ('block-number-check-before-wtx', T4, [("""            while data[0] & 0b11111110 == 0b11110010:  # WTX
                 log.debug("ISO-DEP waiting time extension")
-                data = self.clf.exchange(data, (data[1] & 0x3F) * self.fwt)
-
-            if data[0] & 0x01 != self.pni:
-                log.warning("ISO-DEP protocol error: block number")
-                raise Type4TagCommandError(nfc.tag.PROTOCOL_ERROR)
-""", """            if data[0] & 0x01 != self.pni:
+                if len(data) < 2:""", """            if data[0] & 0x01 != self.pni:
                 log.warning("ISO-DEP protocol error: block number")
                 raise Type4TagCommandError(nfc.tag.PROTOCOL_ERROR)
 
             while data[0] & 0b11111110 == 0b11110010:  # WTX
                 log.debug("ISO-DEP waiting time extension")
-                data = self.clf.exchange(data, (data[1] & 0x3F) * self.fwt)
-""", 'C12-R2'),
+                if len(data) < 2:"""), ("""                if len(data) == 0:
+                    raise Type4TagCommandError(nfc.tag.RECEIVE_ERROR)
+
+            if data[0] & 0x01 != self.pni:
+                log.warning("ISO-DEP protocol error: block number")
+                raise Type4TagCommandError(nfc.tag.PROTOCOL_ERROR)
+""", """                if len(data) == 0:
+                    raise Type4TagCommandError(nfc.tag.RECEIVE_ERROR)
+""")], None, 'C12-R2'),
 ]
